@@ -33,7 +33,7 @@ def replay(ctx, obj):
 
 MODULES = ["XpmVerif.Properties.C04", "XpmVerif.Properties.C04Deps"]
 POSITIONS = ["a", "items", "m", "ma", "h.inner", "h.sub.inner", "h.sub.sub.items", "hs.inner", "hs.items", "o", "os", "mo", "h.out",
-             "pre", "pre.hs", "init", "explicit"]
+             "pre", "pre.hs", "init", "explicit", "o.pre", "o.pre"]
 
 
 def gen_dep_cases(rng, n):
@@ -42,6 +42,7 @@ def gen_dep_cases(rng, n):
         tasks = []
         for i in range(rng.randint(2, 6)):
             emb = [[rng.choice(POSITIONS), j] for j in range(i) if rng.random() < 0.5]
+            emb = [e + [rng.randrange(i)] if e[0] == "o.pre" else e for e in emb]
             tasks.append({"cls": rng.choice(["G", "GO"]), "k": i * 1000 + c, "embeds": emb})
         cases.append({"tasks": tasks})
     return cases
@@ -51,7 +52,7 @@ def deps_monitor(ctx, case, rec):
     for i, (exp, act) in enumerate(zip(rec["expected"], rec["actual"])):
         missing = sorted(set(exp) - set(act))
         if missing:
-            where = [p for p, j in case["tasks"][i]["embeds"] if j in missing]
+            where = [e[0] for e in case["tasks"][i]["embeds"] if e[1] in missing] or ["pre-task of a task output"]
             ctx.monitor_fail(f"dependency-not-collected:{where[0]}",
                              f"task {i} embeds upstream task(s) {missing} at {where} but submit attached only dependencies {act}",
                              {"deps_case": case, "task": i})
@@ -78,8 +79,8 @@ def _deps_part(ctx, n):
             ctx.count("deps_case_errors", rec["error"][:60])
             continue
         for t in case["tasks"]:
-            for p, _ in t["embeds"]:
-                ctx.count("embed_position", p)
+            for e in t["embeds"]:
+                ctx.count("embed_position", e[0])
         ctx.case({"deps_case": case}, any(len(t["embeds"]) >= 2 for t in case["tasks"]))
         deps_monitor(ctx, case, rec)
         good.append((case, rec))
